@@ -21,7 +21,8 @@ type raceReport struct {
 	Harness bool
 }
 
-var frameRe = regexp.MustCompile(`^\s{2}(\S+)\(.*\)$`)
+// "  pkg.(*T[go.shape.struct { K int }]).Method()" -- the function name may contain spaces
+var frameRe = regexp.MustCompile(`^\s{2}(\S.*)\([^()]*\)$`)
 
 func raceLogFiles() []string {
 	p := os.Getenv("VERIF_RACE_LOG")
@@ -54,6 +55,28 @@ func collectRaceReports() []raceReport {
 		}
 	}
 	return out
+}
+
+// normFunc strips generic instantiations, closure numbering and the module prefix.
+func normFunc(fn string) string {
+	var b strings.Builder
+	depth := 0
+	for _, c := range fn {
+		switch c {
+		case '[':
+			depth++
+		case ']':
+			depth--
+		default:
+			if depth == 0 {
+				b.WriteRune(c)
+			}
+		}
+	}
+	fn = b.String()
+	fn = regexp.MustCompile(`\.func\d.*$`).ReplaceAllString(fn, ".func")
+	fn = regexp.MustCompile(`(\.\d+)+$`).ReplaceAllString(fn, "")
+	return strings.TrimPrefix(fn, "reservoir/")
 }
 
 func parseRaceBlock(blk string) raceReport {
@@ -119,15 +142,24 @@ func parseRaceBlock(blk string) raceReport {
 		case fn == "":
 			sides = append(sides, kind+" (no frame)")
 		case strings.HasPrefix(fn, "reservoir/zzharness") || strings.HasPrefix(fn, "reservoir/zzsim"):
-			sides = append(sides, kind+" in harness")
+			// a harness callback invoked by reservoir code (e.g. the modifier handed to UpdateMetadata,
+			// a config subscriber) stands for the callback the proxy itself would pass
+			under := ""
+			for i := 1; i < len(sec); i++ {
+				if m := frameRe.FindStringSubmatch(sec[i]); m != nil && strings.HasPrefix(m[1], "reservoir/") && !strings.HasPrefix(m[1], "reservoir/zz") {
+					under = normFunc(m[1])
+					break
+				}
+			}
+			if under != "" && !strings.Contains(under, "zzsim") {
+				harness = false
+				sides = append(sides, kind+" in callback run by "+under)
+			} else {
+				sides = append(sides, kind+" in harness")
+			}
 		case strings.HasPrefix(fn, "reservoir/"):
 			harness = false
-			if j := strings.IndexByte(fn, '['); j >= 0 {
-				fn = fn[:j]
-			}
-			fn = regexp.MustCompile(`\.func\d.*$`).ReplaceAllString(fn, ".func")
-			fn = regexp.MustCompile(`(\.\d+)+$`).ReplaceAllString(fn, "")
-			sides = append(sides, kind+" in "+strings.TrimPrefix(fn, "reservoir/")+" ("+file+")")
+			sides = append(sides, kind+" in "+normFunc(fn)+" ("+file+")")
 		default:
 			// standard library or third-party code called by reservoir: name the calling reservoir frame
 			caller := ""
